@@ -10,7 +10,7 @@ def showRes {α} (f : α → String) : Except AErr α → String
 /-- H1 line protocol (codecs and framer) -/
 def protoStep (toks : List String) : Option String :=
   match toks with
-  | ["cdenc", num, d] => some (toHex (encodeCD num.toNat! (parseHex d)))
+  | ["cdenc", num, d] => some (toHex (encodeCD (natOf num) (parseHex d)))
   | ["cddec", b] =>
     some (match decodeCD (parseHex b) with
       | .ok (n, d) => s!"ok {n} {toHex d}"
@@ -26,15 +26,15 @@ def protoStep (toks : List String) : Option String :=
     let tail := match r with
       | some .invalid => "END invalid" | some .eof => "END eof" | some (.frame _) => "END ?" | none => "END fuel"
     some (String.intercalate " " (fs.map (fun f => "F " ++ toHex f) ++ [tail]))
-  | ["lifetime", "add", n] => some (toHex (lifetimeAdd n.toNat!))
+  | ["lifetime", "add", n] => some (toHex (lifetimeAdd (natOf n)))
   | ["lifetime", "get", v] => some (showRes toString (lifetimeGet (optHex v)))
-  | ["connid", "add", n] => some (toHex (connIdAdd n.toNat!))
+  | ["connid", "add", n] => some (toHex (connIdAdd (natOf n)))
   | ["connid", "get", v] => some (showRes toString (connIdGet (optHex v)))
-  | ["channum", "add", n] => some (toHex (chanNumAdd n.toNat!))
+  | ["channum", "add", n] => some (toHex (chanNumAdd (natOf n)))
   | ["channum", "get", v] => some (showRes toString (chanNumGet (optHex v)))
-  | ["reqtrans", "add", n] => some (toHex (reqTransAdd (UInt8.ofNat n.toNat!)))
+  | ["reqtrans", "add", n] => some (toHex (reqTransAdd (UInt8.ofNat (natOf n))))
   | ["reqtrans", "get", v] => some (showRes (fun x => toString x.toNat) (reqTransGet (optHex v)))
-  | ["reqfam", "add", n] => some (toHex (reqFamAdd (UInt8.ofNat n.toNat!)))
+  | ["reqfam", "add", n] => some (toHex (reqFamAdd (UInt8.ofNat (natOf n))))
   | ["reqfam", "get", v] => some (showRes (fun x => toString x.toNat) (reqFamGet (optHex v)))
   | ["evenport", "add", r] => some (toHex (evenPortAdd (r == "true")))
   | ["evenport", "get", v] => some (showRes toString (evenPortGet (optHex v)))
@@ -46,7 +46,7 @@ def protoStep (toks : List String) : Option String :=
   | ["data", "add", d] => some (toHex (dataAdd (parseHex d)))
   | ["data", "get", v] => some (showRes toHex (dataGet (optHex v)))
   | ["xoraddr", "add", tid, ip, port] =>
-    some (showRes toHex (xorAddrAdd (parseHex tid) (parseHex ip) port.toNat!))
+    some (showRes toHex (xorAddrAdd (parseHex tid) (parseHex ip) (natOf port)))
   | ["xoraddr", "get", tid, v] =>
     some (showRes (fun (p : Bytes × Nat) => s!"{toHex p.1} {p.2}") (xorAddrGet (parseHex tid) (optHex v)))
   | _ => none
